@@ -324,6 +324,7 @@ class Cluster:
         # Locking is not required for this function.
         assert self._config.is_complete
         self._config.is_complete = False
+        self._config.is_canceled = False
         self._config.submitted_jobs = self._config.num_jobs - len(jobs_to_resubmit)
         self._config.completed_jobs = 0
 
